@@ -130,10 +130,15 @@ def wiring (cs : List ChainDecl) (qs : List (String × String × List Nat)) : Li
   return (gates, links)
 
 def sim2Expected : String :=
-  -- x sends 1,2,3 with send_in 1,2,3 ns over a 1 ns channel; y spawns a 5 ns sleeper on message 1
+  -- fresh-process trace: every clock reading while the network is built is 0 (SimTime::MIN); x schedules
+  -- message 9 at build-time clock + 10 ns and sends 1,2,3 with send_in 1,2,3 ns over a 1 ns channel;
+  -- y spawns a 5 ns sleeper on message 1
+  let buildClock := 0
+  let built := ["n", "cx", "kx", "cy", "ky", "m"].map fun k => s!"{k}@{buildClock}"
   let arr := [1, 2, 3].map fun i => s!"y:{i}@{i + 1}"
   let t := (1 + 1) + 5
-  ",".intercalate (arr ++ [s!"t@{t}", s!"ok:{t}:0"])
+  let x9 := buildClock + 10
+  ",".intercalate (built ++ arr ++ [s!"t@{t}", s!"x:9@{x9}", s!"ok:{x9}:0"])
 
 def kindOfNode : NId → String
   | .state _ => "mod" | .pe _ _ => "pe" | .taskState _ _ => "task" | .body _ => "body" | .probe _ _ => "probe" | _ => "?"
@@ -151,6 +156,7 @@ def processCase (c : Case) : String := Id.run do
   let stopL := (c.body.find? (·.startsWith "stop ")).map words |>.getD []
   let finL := (c.body.find? (·.startsWith "fin ")).map words |>.getD []
   let sim2 := (c.body.find? (·.startsWith "sim2 ")).map (fun l => (l.drop 5).toString.trimAscii.toString) |>.getD ""
+  let sim3 := (c.body.find? (·.startsWith "sim3 ")).map (fun l => (l.drop 5).toString.trimAscii.toString) |>.getD ""
   let res := (kv finL "res").getD "?"
   let started := !(stop == "never" || stop == "never0")
   let fes := (kvNat stopL "fes").getD 0
@@ -211,10 +217,12 @@ def processCase (c : Case) : String := Id.run do
     let oldLeak := (leaked { d with keepChan := true }).map kindOfNode
     let explained := odouble.isEmpty && queued > 0 && kinds.all fun k => countKind oldLeak k == countKind oleak k
     let mper := mper ++ (if explained then "] tag=backlog-cycle old-code-model=[body=" ++ toString (countKind oldLeak "body") else "")
-    return s!"fail {id} op={idx} kind=reject clause=dropped-exactly-once first={o.kind}:{o.tag} c={o.c} d={o.d} {per} stop={stop} res={res} queued={queued} fes={fes} model-leaks=[{mper}] second-sim={if sim2 == sim2Expected then "same" else "differs:" ++ sim2}"
+    return s!"fail {id} op={idx} kind=reject clause=dropped-exactly-once first={o.kind}:{o.tag} c={o.c} d={o.d} {per} stop={stop} res={res} queued={queued} fes={fes} model-leaks=[{mper}] second-sim={if sim2 == sim2Expected && sim3 == sim2Expected then "same" else "differs:" ++ sim2}"
   | none => pure ()
   if sim2 != sim2Expected then
     return s!"fail {id} op={nobjs} kind=reject clause=second-simulation spec={sim2Expected} impl={sim2}"
+  if sim3 != sim2Expected then
+    return s!"fail {id} op={nobjs + 1} kind=reject clause=third-simulation spec={sim2Expected} impl={sim3}"
   -- ---------------------------------------------------------------- tie
   if st.err.isSome then
     return s!"fail {id} op=0 kind=diverge what=model-error"
